@@ -31,19 +31,26 @@ PAR = int(os.environ.get('VERIF_PAR', '14'))
 VENV_PY = '/venv/bin/python'
 
 LEVEL = {  # evidence level per property (must agree with MANIFEST.json)
-    'C01': 'other', 'C07': 'proof',
-    'C02': 'exploration', 'C03': 'exploration', 'C04': 'exploration', 'C05': 'fault_enumeration',
-    'C06': 'fault_enumeration', 'C08': 'exploration', 'C09': 'exploration', 'C10': 'exploration', 'C11': 'exploration',
-    'C12': 'exploration', 'C13': 'exploration', 'C14': 'exploration', 'C15': 'exploration', 'C16': 'exploration',
-    'C17': 'fault_enumeration', 'C18': 'exploration',
+    'C07': 'proof',
+    'C01': 'other', 'C02': 'other', 'C03': 'other', 'C05': 'other', 'C06': 'other', 'C09': 'other', 'C10': 'other',
+    'C11': 'other', 'C12': 'other', 'C13': 'other', 'C14': 'other', 'C17': 'other', 'C18': 'other',
+    'C08': 'exploration', 'C16': 'exploration',
+    'C04': 'exploration', 'C15': 'exploration',
 }
-CONTRACT_MODULES = ['streams', 'sync', 'writers', 'cwrite', 'helpers', 'cpack', 'cdirect']
+CONTRACT_MODULES = ['streams', 'sync', 'writers', 'cwrite', 'helpers', 'cpack', 'cdirect', 'crepack']
 STANDING_ASSUMPTIONS = [
     'pyvc encodes a subset of Python: unbounded mathematical integers, bytes/str as z3 sequences, attribute dictionaries, '
-    'no threads, no signals; anything outside the subset makes the unit undecided (never a pass)',
-    'environment model (pyvc/envmodel.py) is trusted: CPython file objects (buffering, seek/tell/truncate), zlib '
-    '(de)compress objects as an uninterpreted inverse pair, hashlib as an uninterpreted function, os.fsync/open/close',
-    'z3 5.1 is trusted; `unknown`/timeouts are reported as undecided, never as discharged',
+    'left-to-right evaluation, no threads, no signals; anything outside the subset makes the unit undecided (never a pass)',
+    'environment models (pyvc/envmodel.py, fsmodel.py, sqlmodel.py) are trusted: CPython buffered file objects over a two-level '
+    '(kernel / user-space buffer) file model with a per-inode synced watermark (E-FILE-*), atomic directory operations on a map '
+    'of path identifiers (E-OS), os.fsync/fcntl (E-SYNC), hashlib as an uninterpreted collision-free function (E-HASH), zlib '
+    '(de)compress objects as an uninterpreted inverse pair with non-empty streams (E-ZLIB), SQLite through SQLAlchemy as a map '
+    'hashkey -> row with interpreted statements, snapshot-pinning sessions and atomic durable commits (E-SQL, E-SQL-Q), '
+    'str(int) and f"{int}.lock" as injective functions with disjoint ranges (E-INTSTR), fresh uuid4 names (E-UUID)',
+    'integer literals >= 65536 of the repository (chunk sizes) are generalised to arbitrary positive integers',
+    'progress callbacks are absent (units are verified with callback=None); disk_objectstore/database.py is environment',
+    'z3 5.1 is trusted; `unknown`/timeouts are never counted as discharged; an obligation of baseline_obligations.json that is '
+    'no longer discharged is reported after one re-try with a doubled budget',
 ]
 
 
@@ -66,7 +73,8 @@ def units_for(prop):
             '    for u in mod.UNITS:\n'
             '        out.append({"module":m,"name":u.name,"fn":u.fn,"props":list(u.props),"trusted":bool(u.trusted),'
             '"deferred":bool(getattr(u,"deferred",False)),"note":getattr(u,"note",""),"tier":getattr(u,"tier","quick"),'
-            '"parallel":bool(getattr(u,"parallel",False)),"bounded":bool(getattr(u,"bounded",False))})\n'
+            '"parallel":bool(getattr(u,"parallel",False)),"bounded":bool(getattr(u,"bounded",False)),'
+            '"quick_props":list(getattr(u,"quick_props",None) or u.props)})\n'
             'print(json.dumps(out))')
     r = subprocess.run([PYVT, '-c', code], capture_output=True, text=True, env=e, cwd=HERE)
     if r.returncode != 0:
@@ -211,8 +219,11 @@ def main():
 
     # ------------------------------------------------------------------ deductive part
     units = units_for(prop)
-    todo = [u for u in units if not u['trusted'] and not u['deferred'] and (tier == 'thorough' or u['tier'] != 'thorough')]
-    skipped_tier = [u['name'] for u in units if u['tier'] == 'thorough' and tier != 'thorough' and not u['trusted']]
+    def in_tier(u):
+        # expensive units are proved in the every-change tier only under the properties of their `quick_props`
+        return tier == 'thorough' or (u['tier'] != 'thorough' and prop in u['quick_props'])
+    todo = [u for u in units if not u['trusted'] and not u['deferred'] and in_tier(u)]
+    skipped_tier = [u['name'] for u in units if not in_tier(u) and not u['trusted'] and not u['deferred']]
     budget = 900 if tier == 'quick' else 6000
     baseline = load_baseline()
     with cf.ThreadPoolExecutor(max_workers=2) as ex:
@@ -338,8 +349,9 @@ def main():
                     'checker_cmd': f'python3-vt -m pyvc.worker <module> <unit>   (driven by check.py {prop})',
                     'trusted_base': STANDING_ASSUMPTIONS})
     if level == 'other':
-        cov['explanation'] = ('mixed: the read side (stream classes) is proved deductively; the write paths and the '
-                              'container-level composition are checked by bounded run-time contracts only')
+        cov['explanation'] = ('mixed: the functions listed under deductive.functions_proved are proved (all obligations discharged '
+                              'by z3 from the real bodies); the composition of the public operations over histories / crash points '
+                              '/ fault positions is checked by bounded run-time contracts only (coverage.bounded)')
     if level == 'proof' and (n_ob == 0 or n_ob != n_dis):
         level = 'other'
         cov['explanation'] = 'proof obligations were not all discharged in this run; see deductive.functions_undecided_not_counted'
